@@ -52,7 +52,7 @@ MANIFEST = {
             "translator T1 (table + insertion logic read from the source on every run, re-proved by `decide`) and a "
             "differential run in which the symbolic terms of the model/spec are evaluated with python's operator.* on the "
             "real elements",
-    "note": "Trusted: Lean kernel (axioms propext, Quot.sound only as reported in the evidence), translator T1, the term "
+    "note": "Trusted: Lean kernel (axioms propext, Classical.choice, Quot.sound as reported in the evidence), translator T1, the term "
             "evaluator and generators of harness/props/c01.py, CPython's operator dispatch and itertools.  Element "
             "semantics is deliberately not modelled (free term algebra): the property is about wiring.",
     "technique": "Lean 4 proof over an executable model + source-to-Lean table translator + symbolic differential correspondence",
@@ -924,7 +924,7 @@ def rand_tree(rng, d, fam):
 
     def stream_leaf():
         r = rng.random()
-        n = rng.choice([0, 1, 2, 3, 3, 4, 5, 6])
+        n = rng.choice([0, 1, 2, 3, 4, 5, 6, 2, 3, 4, 5, 6, 3, 4, 5, 6])
         if r < 0.55:
             return stream_of(leaf(rng.choice(["list", "gen", "tuple", "iter", "deque"]), vals(n, "s")))
         if r < 0.65:
